@@ -15,10 +15,13 @@ const char* const H_PROPERTY = "C11";
 #define MAXMSG 8
 enum { K_BOUNDED_SIG = 0, K_BOUNDED_SPIN, K_UNBOUNDED, K_UNBOUNDED_SP, K_MULTI, K_RAW_SIGNAL, K_NKINDS };
 static int kind, nsend, nrecv, per[MAXS], rquota[MAXR], cap, yield_s, yield_r;
-static fiber_signal_t sig;
+static fiber_signal_t* sig_p; /* heap memory with arbitrary previous contents */
+#define sig (*sig_p)
 static fiber_bounded_channel_t* bch;
-static fiber_unbounded_channel_t uch;
-static fiber_unbounded_sp_channel_t spch;
+static fiber_unbounded_channel_t* uch_p;
+static fiber_unbounded_sp_channel_t* spch_p;
+#define uch (*uch_p)
+#define spch (*spch_p)
 static fiber_multi_channel_t* mch;
 /* ghosts */
 static unsigned char sent_begun[MAXS][MAXMSG + 1], received[MAXS][MAXMSG + 1];
@@ -215,6 +218,9 @@ void h_run(void) {
   sim_describe("threads=%d %s senders=%d receivers=%d capacity=%d messages=%d yield_s=%d yield_r=%d fd_wait_first=%d preempt=1/%d", c.threads, kn[kind], nsend, nrecv, cap, total, yield_s, yield_r, pre_fd_wait, c.preempt_inv);
   sim_fiber_mode();
   fiber_manager_init(c.threads);
+  sig_p = h_dirty_alloc(sizeof *sig_p);
+  uch_p = h_dirty_alloc(sizeof *uch_p);
+  spch_p = h_dirty_alloc(sizeof *spch_p);
   fiber_signal_init(&sig);
   switch (kind) {
     case K_BOUNDED_SIG:
